@@ -54,7 +54,7 @@ def main():
         for name, r in tres.items():
             if not r["ok"]:
                 broken.append(("translate", f"Generated/{name}.lean: {r['error']}"))
-        targets = ["driver", f"ExponaxModel.Properties.{pid}"] + list(getattr(mod, "EXTRA_TARGETS", []))
+        targets = ["driver"] + [m for _, m in C.property_modules(pid)] + list(getattr(mod, "EXTRA_TARGETS", []))
         ok, out = C.lake_build(targets)
         driver_ok = True
         if not ok:
@@ -75,7 +75,7 @@ def main():
             if not hits and aok:
                 discharged = obligations
     if ctx.tier == "thorough" and not broken:
-        rc, out = C.run(["lake", "env", "leanchecker", f"ExponaxModel.Properties.{pid}"], cwd=C.LEAN_DIR, timeout=3000)
+        rc, out = C.run(["lake", "env", "leanchecker"] + [m for _, m in C.property_modules(pid)], cwd=C.LEAN_DIR, timeout=3000)
         ctx.notes.append(f"leanchecker rc={rc}")
         if rc != 0:
             broken.append(("audit", "leanchecker rejected the compiled module: " + out[-400:]))
